@@ -271,3 +271,33 @@ func VP_C14_steps() {
 	}
 	vp.Cover("end")
 }
+
+// data returned by ReadSector is the caller's: bytes read earlier are unchanged
+// by later reads and writes on the same Region (no aliasing of a reused read
+// buffer), for chunks of one to three sectors.
+func VP_C14_held_reads() {
+	const S = 8
+	a := vpChunk{x: vpCoords[0][0], z: vpCoords[0][1], sec: 2, cnt: int32(1 + vp.Choice(3))}
+	b := vpChunk{x: vpCoords[1][0], z: vpCoords[1][1], sec: 5, cnt: int32(1 + vp.Choice(2))}
+	chunks := []vpChunk{a, b}
+	for i := range chunks {
+		c := &chunks[i]
+		c.length = 4096*int(c.cnt) - 4 - 7*i
+		c.first, c.end = vp.Byte(), vp.Byte()
+	}
+	mem := &vpMemFile{b: vpBuild(chunks, S)}
+	r, err := Load(mem)
+	vp.Assert(err == nil, "Load of a valid image succeeds")
+	d1, err := r.ReadSector(chunks[0].x, chunks[0].z)
+	vp.Assert(err == nil && len(d1) == chunks[0].length, "first read")
+	d2, err := r.ReadSector(chunks[1].x, chunks[1].z)
+	vp.Assert(err == nil && len(d2) == chunks[1].length, "second read")
+	data := make([]byte, 1+vp.Choice(2)*5000)
+	data[0] = 0x5a
+	vp.Assert(r.WriteSector(vpCoords[2][0], vpCoords[2][1], data) == nil, "WriteSector err==nil")
+	d3, err := r.ReadSector(vpCoords[2][0], vpCoords[2][1])
+	vp.Assert(err == nil && len(d3) == len(data) && d3[0] == 0x5a, "third read")
+	vp.Assert(d1[0] == chunks[0].first && d1[len(d1)-1] == chunks[0].end, "bytes read earlier are unchanged by later reads and writes")
+	vp.Assert(d2[0] == chunks[1].first && d2[len(d2)-1] == chunks[1].end, "bytes read earlier are unchanged by later reads and writes")
+	vp.Cover("end")
+}
